@@ -107,8 +107,22 @@ def do_write(req):
     it = IndexType.NONE
     for name in (o.get("index_types") or []):
         it |= getattr(IndexType, name)
-    with open(req["path"], "wb") as f:
-        w = Writer(f, chunk_size=o.get("chunk_size", 1024 * 1024), compression=CompressionType.NONE, index_types=it,
+    kind = o.get("output") or "file"
+    mem = None
+    if kind == "path":
+        f, target = None, req["path"]
+    elif kind == "raw":
+        f = open(req["path"], "wb", buffering=0)
+        target = f
+    elif kind == "bytesio":
+        import io
+        f, mem = None, io.BytesIO()
+        target = mem
+    else:
+        f = open(req["path"], "wb")
+        target = f
+    try:
+        w = Writer(target, chunk_size=o.get("chunk_size", 1024 * 1024), compression=CompressionType.NONE, index_types=it,
                    repeat_channels=o.get("repeat_channels", True), repeat_schemas=o.get("repeat_schemas", True),
                    use_chunking=o.get("use_chunking", True), use_statistics=o.get("use_statistics", True),
                    use_summary_offsets=o.get("use_summary_offsets", True), enable_crcs=o.get("enable_crcs", True),
@@ -128,6 +142,13 @@ def do_write(req):
             elif k == "metadata":
                 w.add_metadata(op["name"], dict(op["metadata"]))
         w.finish()
+    finally:
+        # the caller closes what the caller opened, as the Writer's documentation says
+        if f is not None:
+            f.close()
+    if mem is not None:
+        with open(req["path"], "wb") as out:
+            out.write(mem.getvalue())
     return {"ids": ids}
 
 
